@@ -108,6 +108,7 @@ func (c *Chunk) WriteBytes(b []byte) error {
 			c.buf = c.buf[:i]
 			return err
 		}
+		i = x - 1
 		_, x = c.buf[i+1+int(l)], x+1
 		c.buf[i], c.buf[i+1] = 1, byte(l)
 	case l < LimitMedium:
@@ -115,6 +116,7 @@ func (c *Chunk) WriteBytes(b []byte) error {
 			c.buf = c.buf[:i]
 			return err
 		}
+		i = x - 1
 		_, x = c.buf[i+2+int(l)], x+2
 		c.buf[i], c.buf[i+1], c.buf[i+2] = 3, byte(l>>8), byte(l)
 	case l < LimitLarge:
@@ -122,6 +124,7 @@ func (c *Chunk) WriteBytes(b []byte) error {
 			c.buf = c.buf[:i]
 			return err
 		}
+		i = x - 1
 		_, x = c.buf[i+4+int(l)], x+4
 		c.buf[i], c.buf[i+1], c.buf[i+2] = 5, byte(l>>24), byte(l>>16)
 		c.buf[i+3], c.buf[i+4] = byte(l>>8), byte(l)
@@ -130,6 +133,7 @@ func (c *Chunk) WriteBytes(b []byte) error {
 			c.buf = c.buf[:i]
 			return err
 		}
+		i = x - 1
 		_, x = c.buf[i+8+int(l)], x+8
 		c.buf[i], c.buf[i+1], c.buf[i+2] = 7, byte(l>>56), byte(l>>48)
 		c.buf[i+3], c.buf[i+4] = byte(l>>40), byte(l>>32)
